@@ -425,12 +425,13 @@ class ErrorRanges:
         self._lengths = self._compute_lengths()
 
     def _compute_lengths(self) -> List[int]:
-        lengths = [
-            int(errors / self.error_rate) - 1
-            for errors in range(1, int(self.error_rate * self.length) + 1)
-        ]
-        if not lengths or lengths[-1] < self.length:
-            lengths.append(self.length)
+        # The aligner allows int(length * error_rate) errors for a match of the
+        # given length. Determine the lengths at which that number increases.
+        lengths = []
+        for length in range(1, self.length + 1):
+            while int(length * self.error_rate) > len(lengths):
+                lengths.append(length - 1)
+        lengths.append(self.length)
         return lengths
 
     def __repr__(self):
